@@ -262,3 +262,11 @@ def kern_imp_set(tier):
     o = [kern_imp_obl(7), kern_imp_obl(8), kern_imp_obl(9), kern_imp_obl(8, 'cr32s.c'), kern_imp_obl(9, 'cr32s.c')]
     o += [kern_imp_obl(h, 'cr64.c') for h in ((7, 10, 13) if tier == 'quick' else (7, 8, 9, 10, 11, 12, 13))]
     return o
+
+
+def coefs_cont_obl(order, core, timeout=400):
+    return Obl(name='polycoefs_continuity_o%d_core%d' % (order, core), src='coefs_prep.c',
+               defs=['-DVF_ORDER=%d' % order, '-DVF_CORE=%d' % core, '-DVF_NC=3', '-DVF_NP=3', '-DVF_ONEHOT=120', '-DVF_CONT=1'], unwind=40, timeout=timeout, ndebug=False,
+               desc='prepare_poly_fir_coefs (cr.c): the order-%d coefficient polynomial of every (phase, tap) entry at x = 1 equals the next phase\'s prototype sample; core layout %d' % (order, core),
+               bounds='3 taps x 3 phases; basis input: one tap at a symbolic position with a symbolic value (multiple of 12, |v| <= 120), others 0 (the table is linear in the taps)',
+               stubs=['table storage from a static pool (mem->calloc)'], funcs=['cr.c:prepare_poly_fir_coefs'])
